@@ -459,8 +459,9 @@ pub enum Dev<F: PrimeField> {
     /// constraint's own constant terms (sel 0: -(sum), 1: +(sum), 2: -(first), 3: +(last))
     KConstStruct { k: usize, sel: usize },
     /// both roles: the constants of two explicit constraints shifted by +delta and -delta
-    /// (two violated rows whose residuals cancel if the rows ever share a weight)
-    KConstPair { k1: usize, k2: usize, delta: F },
+    /// times m1 resp. m2 (two violated rows whose residuals cancel if the rows' weights are ever
+    /// in the ratio m2 : m1 - equal weights for m1 = m2 = 1)
+    KConstPair { k1: usize, k2: usize, delta: F, m1: F, m2: F },
     /// verifier only: coefficient `term` of the k-th explicit constraint shifted
     KCoef { k: usize, term: usize, delta: F },
     /// prover only (hook H1): gate assignment overwritten at the end of the gate's phase
@@ -831,11 +832,11 @@ pub fn exec_op<F: PrimeField>(op: Op, ctx: &mut Ctx<F>, side: &mut dyn Side<F>) 
                 Dev::KConst { k, delta, both } if *k == ctx.kcount && (*both || is_v) => {
                     c += delta;
                 }
-                Dev::KConstPair { k1, delta, .. } if *k1 == ctx.kcount => {
-                    c += delta;
+                Dev::KConstPair { k1, delta, m1, .. } if *k1 == ctx.kcount => {
+                    c += *delta * *m1;
                 }
-                Dev::KConstPair { k2, delta, .. } if *k2 == ctx.kcount => {
-                    c -= delta;
+                Dev::KConstPair { k2, delta, m2, .. } if *k2 == ctx.kcount => {
+                    c -= *delta * *m2;
                 }
                 Dev::KConstStruct { k, sel } if *k == ctx.kcount => {
                     let ones: Vec<F> = t.iter().filter(|x| matches!(x.0, Variable::One())).map(|x| x.1).collect();
